@@ -1102,6 +1102,34 @@ func (e *Env) evalCall(c *ast.CallExpr) (Val, error) {
 		}
 		tr := mk("Int", "ite", mk("Bool", ">=", a.T, mk("Real", "0.0")), mk("Int", "to_int", a.T), mk("Int", "-", mk("Int", "to_int", mk("Real", "-", a.T))))
 		return Val{tr, intT}, nil
+	case "ftrunc":
+		a, err := e.eval(c.Args[0])
+		if err != nil {
+			return Val{}, err
+		}
+		if !isFloatSort(a.T.Sort) {
+			return Val{}, fmt.Errorf("ftrunc() needs a float")
+		}
+		return Val{floatTrunc(a.T), intT}, nil
+	case "finrange":
+		// finrange(x, T): the float x is a number whose truncation fits the integer type T
+		a, err := e.eval(c.Args[0])
+		if err != nil {
+			return Val{}, err
+		}
+		ty, err := e.resolveType(c.Args[1])
+		if err != nil {
+			return Val{}, err
+		}
+		b, ok := ty.Underlying().(*types.Basic)
+		if !ok {
+			return Val{}, fmt.Errorf("finrange: integer type expected")
+		}
+		lo, hi, ok := intRange(b)
+		if !ok {
+			return Val{}, fmt.Errorf("finrange: integer type expected")
+		}
+		return Val{floatInRange(a.T, lo, hi), boolT}, nil
 	case "round32":
 		a, err := e.eval(c.Args[0])
 		if err != nil {
